@@ -10,7 +10,7 @@ import string
 OPEN = "([{<" + string.ascii_uppercase
 CLOSE = ")]}>" + string.ascii_lowercase
 ALPHABET = set("." + OPEN + CLOSE)
-LETTERS = "ABCDEFGHIJKLMNOPQRSTUVWXYZ"  # pairwise distinct, so position mix-ups are visible
+LETTERS = "AbCdEfGhIjKlMnOpQrStUvWxYz"  # pairwise distinct (position mix-ups are visible) and mixed case (modified residues are lower case)
 
 
 def valid(p):
@@ -203,3 +203,31 @@ def interleaved(k, tail):
             out[v - 1] = v + 2
             out[v + 1] = v
     return out
+
+
+def star(k):
+    """k-1 nested single pairs (separated by unpaired positions) all crossed by one further stem of two pairs: a group of exactly k stems whose
+    conflict graph is a star, e.g. k=3: '(.(.[[.)).]]'"""
+    n_in = k - 1
+    s = []
+    for _ in range(n_in):
+        s += ["(", "."]
+    s += ["[", "[", "."]
+    s += [")"] * n_in
+    s += [".", "]", "]"]
+    return from_brackets("".join(s))
+
+
+def from_brackets(s):
+    d = decode(s)
+    p = [0] * len(s)
+    for (i, j) in d:
+        p[i - 1] = j
+        p[j - 1] = i
+    return p
+
+
+def concat(p, q, gap=1):
+    """two structures one after the other (independent groups of crossing stems), `gap` unpaired positions in between"""
+    off = len(p) + gap
+    return list(p) + [0] * gap + [(x + off if x else 0) for x in q]
